@@ -256,9 +256,10 @@ def csv_mem_vs_stream(ctx, vlib):
                         lines = [",".join(hdr)]
                         body = lambda: eol.join(lines) + (eol if final else "")
                         # fill with rows, then pad the last field so that the document has exactly `target` bytes
-                        while len(body()) < target - 40:
-                            lines.append(",".join(str(rng.randint(0, 9999)) for _ in hdr))
-                        pad = target - len(body()) - len(eol) - (ncols - 1) * 2 - (2 if quoted else 0)
+                        blen = lambda: len(body().encode("utf-8"))
+                        while blen() < target - 40:
+                            lines.append(",".join(rng.choice([str(rng.randint(0, 9999)), "\u00e9\u4e16", "\U0001F600z", "\u044f"]) for _ in hdr))
+                        pad = target - blen() - len(eol) - (ncols - 1) * 2 - (2 if quoted else 0)
                         if pad < 1:
                             continue
                         last = "x" * pad
@@ -278,6 +279,31 @@ def csv_mem_vs_stream(ctx, vlib):
             failing.append(dict(driver="csv", case=cases[i + 1], implementation=b[:300], model=a[:300], judge="FAIL",
                                 why="the same CSV bytes load differently from a stream than from memory"))
     evaluations = len(cases)
+    # the same table saved in the other four encodings (with BOM, and without BOM: detection needs an ASCII first character,
+    # which a header name is): the stream load must give what the memory load of the UTF-8 text gives - the composition of
+    # the CSV stream reader (C09) with the chunked transcoding reader (C13), observed on the implementation
+    enc_cases, enc_expect = [], []
+    for i in range(0, len(cases), 2):
+        t = cases[i].split(" ")
+        try:
+            text = bytes.fromhex(t[4]).decode("utf-8")
+        except Exception:
+            continue
+        if i % 6:
+            continue
+        for codec, bom in (("utf-16-le", b"\xff\xfe"), ("utf-16-be", b"\xfe\xff"), ("utf-32-le", b"\xff\xfe\x00\x00"), ("utf-32-be", b"\x00\x00\xfe\xff")):
+            for with_bom in (True, False):
+                data = (bom if with_bom else b"") + text.encode(codec)
+                enc_cases.append("csvr stream %s %s %s" % (t[2], t[3], data.hex()))
+                enc_expect.append(outs[i])
+    eo = vlib.run_driver(impl, enc_cases)
+    evaluations += len(enc_cases)
+    for c, o, want in zip(enc_cases, eo, enc_expect):
+        key = "csv stream in UTF-16/32 vs memory UTF-8 -> %s" % ("equal" if o == want else "DIFFERENT")
+        classes[key] = classes.get(key, 0) + 1
+        if o != want and len(failing) < 20:
+            failing.append(dict(driver="csv", case=c[:3000], implementation=o[:300], model=want[:300], judge="FAIL",
+                                why="a CSV table in UTF-16/32 loads differently from a stream than its UTF-8 text loads from memory"))
     # small chunk sizes (hook BITSERIALIZER_VERIF_CSV_CHUNK_SIZE, /repo b276b03): every alignment of quoted fields, escaped
     # quotes, separators and line breaks relative to the chunk boundary with short documents; three-way comparison
     # memory load / stream load of the hook build / extracted stream model with the same K (csv_load_stream K, C09)
